@@ -65,6 +65,9 @@ def check_bracketing(plan, impl, out):
             tag, framer, frame, ctx = e[2], e[3], e[4], e[5]
             if span is not None:
                 span[1].append((framer, frame, ctx))
+            both = _has_rec(asts[framer], frame, "enter") and _has_rec(asts[framer], frame, "exit")
+            if not both and ctx in ("enter", "exit"):
+                continue      # only frames that record both ends can be bracketed
             if ctx == "enter":
                 if state.get(frame):
                     out.violate("bracketing", "frame entered twice without exit", "tick %d frame %s of %s" % (e[0], frame, framer))
@@ -77,7 +80,7 @@ def check_bracketing(plan, impl, out):
                     return
                 state[frame] = False
                 entered[framer].remove(frame)
-            elif ctx in ("recur", "precur", "renter", "rexit") and not state.get(frame) and _has_rec(asts[framer], frame, "enter"):
+            elif ctx in ("recur", "precur", "renter", "rexit") and not state.get(frame) and both:
                 out.violate("bracketing", "action of a frame that is not entered", "tick %d %s ran in frame %s of %s which is not entered" % (e[0], ctx, frame, framer))
                 return
             continue
